@@ -32,6 +32,9 @@ def universe():
                     tags = {} if tk == "<missing>" else {"k": tk}
                     fields = {} if fx == "<missing>" else {"x": fx}
                     pts.append(MPoint(t, m, tags, fields))
+    # points that have not been given a time yet (valid points: they are stamped on insert)
+    pts.append(MPoint(None, "m0", {"k": "a"}, {"x": 2}))
+    pts.append(MPoint(None, "m1", {}, {}))
     return pts
 
 
@@ -44,6 +47,9 @@ def atom_vocabulary():
             A.append(("cmp", "time", (), op, ("T", us, off)))
     A.append(("cmp", "time", (("map", "trunc_s"),), "==", ("T", T0 - T0 % 1_000_000, 0)))
     A.append(("cmp", "time", (("map", "plus1us"),), ">", ("T", T0 + 1, 60)))
+    # comparison values for which the comparison is undefined (naive datetime against aware times): false, never an error
+    for op in ("==", "!=", "<", ">="):
+        A.append(("cmp", "time", (), op, ("NAIVE", T0)))
     A.append(("test", "time", (), "even_us", ()))
     A.append(("noop", "time"))
     # measurement
@@ -93,6 +99,10 @@ def atom_vocabulary():
     A.append(("exists", "fields", "nokey"))
     A.append(("test", "fields", ("x",), "num_pos", ()))
     A.append(("test", "fields", ("x",), "is_none", ()))
+    A.append(("test", "fields", ("x",), "above_0", ()))
+    A.append(("test", "fields", ("x",), "above_1", ()))
+    A.append(("test", "tags", ("k",), "lam_a", ()))
+    A.append(("test", "tags", ("k",), "lam_b", ()))
     A.append(("test", "fields", ("x",), "gt_arg", (1,)))
     A.append(("test", "fields", ("x",), "between_args", (-1, 2)))
     A.append(("test", "tags", ("k",), "startswith_arg", ("a",)))
@@ -114,7 +124,7 @@ def quick_atoms(A):
             seen.add(key)
             keep.append(a)
     # one more each for the None/missing sensitive ones
-    return keep[:44]
+    return keep[:52]
 
 
 CORE_ATOMS = [
